@@ -1541,7 +1541,7 @@ def _run(ctx, pool, scratch, quick, rng):
         elif kind == "clayer":
             ctx.count(r["tiles"] + r["filter_calls"])
             ctx.add_note("chunked_pixels_compared", r["pixels"])
-            ctx.add_note("chunked_pixels_on_a_cell_boundary_either_neighbour_accepted", r["ambiguous"])
+            ctx.add_note("chunked_pixels_on_a_cell_boundary_compared_with_whole_map_only", r["ambiguous"])
             ctx.distinct(("clayer", r["id"]))
             for v in r["seam"]:
                 _violation(ctx, "C07:chunked-sampling:seam-hole", "sampling all chunks of map %s (%s, route %s) one after another leaves %d pixel centres of tile %s that lie on a chunk seam without data "
